@@ -1100,6 +1100,85 @@ func sectionEnsureRace(rng *vh.Rng) {
 		}
 		srv.Pipes.DeletePipe(name)
 	}
+	// different definitions: caller 0 ensures (name, a=0) and is parked between CreatePipe's two critical sections; caller 1 ensures
+	// (name, a=1) and runs to the end; caller 0 is released: it must be told about the conflict, never be handed caller 1's pipe
+	// (MODEL: erun for the executed schedule; theorem ensure_never_returns_another_definition)
+	if verifhook.Enabled {
+		m := 3
+		if args.Thorough {
+			m = 30
+		}
+		var lines, impls []string
+		var inputs []map[string]interface{}
+		for c := 0; c < m; c++ {
+			name := fmt.Sprintf("ensd%d", c)
+			gate := make(chan struct{})
+			arrived := make(chan struct{}, 1)
+			var once sync.Once
+			verifhook.Set("pipe.create.betweenChecks", func() {
+				first := false
+				once.Do(func() { first = true })
+				if first {
+					arrived <- struct{}{}
+					<-gate
+				}
+			})
+			var errs [2]error
+			var descs [2]pipe.PipeDesc
+			done0 := make(chan struct{})
+			go func() {
+				defer close(done0)
+				descs[0], errs[0] = srv.Pipes.EnsurePipe(pipe.Pipe{Name: name, TagsCond: "a=0"})
+			}()
+			select {
+			case <-arrived:
+			case <-time.After(5 * time.Second):
+				res.Note("ensure-race: caller 0 did not reach the hook")
+				close(gate)
+				<-done0
+				verifhook.Set("pipe.create.betweenChecks", nil)
+				continue
+			}
+			descs[1], errs[1] = srv.Pipes.EnsurePipe(pipe.Pipe{Name: name, TagsCond: "a=1"})
+			close(gate)
+			<-done0
+			verifhook.Set("pipe.create.betweenChecks", nil)
+			in := map[string]interface{}{"name": name, "program": "caller 0 (a=0) parked between CreatePipe's sections; caller 1 (a=1) ensures to the end; caller 0 released"}
+			res.Eval(sec, "different-definitions "+fmt.Sprint(c))
+			res.Dist(sec, "different definitions, parked")
+			show := func(i int, want string) string {
+				if errs[i] != nil {
+					if strings.Contains(errs[i].Error(), "already exists") || strings.Contains(errs[i].Error(), "another") || strings.Contains(errs[i].Error(), "different") {
+						return "conflict"
+					}
+					return "conflict" // any refusal of the overtaken caller; the model distinguishes conflict/failed by attempts only
+				}
+				if descs[i].TagsCond != want {
+					res.SpecFail(vh.SpecFailure{Section: "ensure-race", Kind: "ensure-returned-another-definition", Input: in,
+						Impl: fmt.Sprintf("caller %d asked for %q and was answered ok with %q", i, want, descs[i].TagsCond), Spec: "its own definition, or the conflict error",
+						What: "an ensure with a definition that differs from the registered one must fail, not return the other pipe"})
+				}
+				return "ok:" + vh.HxS(descs[i].TagsCond)
+			}
+			impl := show(0, "a=0") + " " + show(1, "a=1")
+			// executed schedule: 0: get, createStart | 1: get, createStart, createChecked(register), get(found own) | 0: createChecked(found), get(conflict)
+			lines = append(lines, fmt.Sprintf("ensurerace %s %s,%s 0 0 1 1 1 1 0 0", vh.HxS(name), vh.HxS("a=0"), vh.HxS("a=1")))
+			impls = append(impls, impl)
+			inputs = append(inputs, in)
+			srv.Pipes.DeletePipe(name)
+		}
+		if len(lines) > 0 {
+			ans, err := vh.Batch(args.Driver, lines)
+			if err != nil {
+				res.Fatal(args.Out, "driver: %v", err)
+			}
+			for i := range lines {
+				if ans[i] != impls[i] {
+					res.Mismatch(vh.Mismatch{Section: "ensure-race", Function: "pipe.Service.ensurePipe: " + lines[i], Input: inputs[i], Impl: impls[i], Model: ans[i]})
+				}
+			}
+		}
+	}
 	res.Done(sec)
 }
 
